@@ -47,7 +47,7 @@ MonInit(P) ==
    staleTD |-> {},
    lastEv |-> "", lastT |-> 0, lastO |-> NONE, lastReqEnd |-> [t |-> 0, o |-> NONE],
    fault |-> {}, boom |-> <<0, 0>>,
-   blog |-> <<>>,                            \* the events of the 10 kinds EventTracker records, since the last build_start
+   blog |-> <<>>, builds |-> 0,              \* build_end events since the API call that runs a build started                            \* the events of the 10 kinds EventTracker records, since the last build_start
    cnt |-> [p \in {"C01","C02","C03","C04","C05","C06","C07","C08","C09","C15","C17","C18","C19","C20"} |-> 0]]
 
 Bump(m, p) == [m EXCEPT !.cnt[p] = @ + 1]
@@ -160,7 +160,7 @@ OnSessStart(P, m, st, e) ==
               !.errsExp = 0, !.errSeen = FALSE, !.sessOk = TRUE, !.pend = NoPend, !.exp = NoExp, !.sessBU = FALSE, !.k1risk = FALSE], {})
 
 OnRootCall(P, m, st, e) ==
-  R([m EXCEPT !.curRoot = e.t, !.build = "td", !.bexecd = {}], {})
+  R([m EXCEPT !.curRoot = e.t, !.build = "td", !.bexecd = {}, !.builds = 0], {})
 
 OutputFormula(P, m, st, e, roots2) ==
   LET S == Scratch(P, roots2, m.res0)
@@ -180,6 +180,7 @@ OnRootRet(P, m, st, e) ==
       k1 == m.k1risk /\ vo # {}
       v == (IF k1 THEN {} ELSE vo)
            \cup V(m.nstk = <<>>, <<"C17", "unclosed_at_return">>)
+           \cup V(m.builds = 1 /\ m.lastEv = "build_end", <<"C17", "completed_build_without_events">>)
            \cup V(m.lastReqEnd = [t |-> e.t, o |-> e.o], <<"C17", "require_end_value">>)
            \cup ClosureViol(st)
       m1 == Bump(Bump([m EXCEPT !.roots = roots2, !.build = "none", !.vstk = <<>>], own), "C17")
@@ -223,11 +224,13 @@ OnBuBegin(P, m, st, e) ==
   R([m EXCEPT !.build = "bu", !.bexecd = {}, !.reported = {}, !.buOk = FALSE, !.vstk = <<>>, !.sessBU = TRUE,
               !.k1risk = @ \/ m.staleTD # {}], {})
 OnBuSched(P, m, st, e) == R([m EXCEPT !.reported = @ \cup {e.r}], {})
+OnBuRun(P, m, st, e) == R([m EXCEPT !.builds = 0], {})
 OnBuRet(P, m, st, e) ==
   LET complete == m.changed \subseteq m.reported
   IN R(Bump([m EXCEPT !.build = "none", !.buOk = complete /\ ~m.aborted, !.changed = IF complete THEN {} ELSE @,
                  !.vstk = <<>>], "C04"),
-       V(m.nstk = <<>>, <<"C17", "unclosed_at_return">>) \cup ClosureViol(st))
+       V(m.nstk = <<>>, <<"C17", "unclosed_at_return">>) \cup ClosureViol(st)
+       \cup V(m.builds = 1 /\ m.lastEv = "build_end", <<"C17", "completed_build_without_events">>))
 
 \* ---- requires --------------------------------------------------------------------------------------------------
 OnRequireStart(P, m, st, e) ==
@@ -253,13 +256,18 @@ OnRequireEnd(P, m, st, e) ==
       \* a validation that saw an inconsistent (or failing) dependency must have executed the task
       vInc == IF f.t = u /\ f.bad /\ ~f.ex
               THEN {<<IF f.err THEN "C18" ELSE "C09", "inconsistent_dependency_reused">>} ELSE {}
+      \* a task is reused only after every dependency recorded by its latest execution has been validated
+      \* (unless it was already made consistent earlier in this session)
+      vAll == IF m.build = "td" /\ f.t = u /\ ~f.bad /\ ~f.ex /\ u \notin m.validated /\ u \in Tasks(st) /\ st.out[u] # NONE
+                 /\ f.seq # FirstOcc(m.perf[u], {})
+              THEN {<<"C09", "reused_without_validating_every_dependency">>} ELSE {}
       \* the task was really validated (not just found in the session's consistent set, which a bottom-up require of an
       \* unaffected task also fills)
       validatedNow == f.t = u /\ (f.ex \/ f.seq # <<>> \/ (u \in Tasks(st) /\ st.deps[u] = <<>>))
       m1 == [m EXCEPT !.vstk = IF @ = <<>> THEN @ ELSE Front(@), !.validated = @ \cup {u},
                       !.staleTD = IF m.build = "td" /\ validatedNow THEN @ \ {u} ELSE @,
                       !.lastReqEnd = [t |-> u, o |-> e.o]]
-  IN R(Bump(m1, "C09"), vF \cup vStamp \cup vVal \cup vInc)
+  IN R(Bump(m1, "C09"), vF \cup vStamp \cup vVal \cup vInc \cup vAll)
 
 \* ---- reads -----------------------------------------------------------------------------------------------------
 OnRdOpen(P, m, st, e) ==
@@ -381,6 +389,9 @@ OnCheckTaskEnd(P, m, st, e) ==
            \cup V((e.res = "inc") = inc, <<"C09", "task_check_result">>)
            \cup (IF fu.t = e.t /\ fu.bad /\ ~fu.ex
                  THEN {<<IF fu.err THEN "C18" ELSE "C09", "inconsistent_dependency_reused">>} ELSE {})
+           \cup (IF m.build = "td" /\ fu.t = e.t /\ ~fu.bad /\ ~fu.ex /\ e.t \notin m.validated /\ e.t \in Tasks(st) /\ st.out[e.t] # NONE
+                    /\ fu.seq # FirstOcc(m.perf[e.t], {})
+                 THEN {<<"C09", "reused_without_validating_every_dependency">>} ELSE {})
       m2 == IF f.t = 0 THEN m1 ELSE SetTop(m1, [f EXCEPT !.bad = @ \/ inc])
   IN R(Bump(m2, "C09"), v)
 
@@ -470,12 +481,13 @@ OnOp(P, m, st, e) ==
       \* the value handed to the requirer is the one announced by require_end (as far as its checker observes)
       vReq == IF okT /\ prev.k = "rq" /\ m.lastEv = "require_end" /\ m.lastReqEnd.t = prev.x
               THEN V(e.acc = Mix(prev.acc, OObs(prev.c, m.lastReqEnd.o), P.na), <<"C17", "require_end_value">>) ELSE {}
+      vReqEv == IF okT /\ prev.k = "rq" THEN V(m.lastEv = "require_end" /\ m.lastReqEnd.t = prev.x, <<"C17", "completed_require_without_events">>) ELSE {}
       m1 == IF okT
             THEN [m0 EXCEPT !.curop[cur] = [k |-> op.k, x |-> op.x, c |-> op.c, f |-> op.f, acc |-> e.acc],
                             !.perf[cur] = @ \o PerfEntry(P, m0, st, cur, op, e.acc)]
             ELSE m0
       m2 == IF okT /\ TwoCheckers(m1.perf[cur]) THEN [m1 EXCEPT !.twochk = @ \cup {cur}] ELSE m1
-  IN R(m2, V(okT, <<"C17", "operation_outside_execution">>) \cup vReq
+  IN R(m2, V(okT, <<"C17", "operation_outside_execution">>) \cup vReq \cup vReqEv
            \cup V(defined, <<"INTEGRITY", "program_hole_reached">>))
 
 OnTaskExit(P, m, st, e) ==
@@ -615,6 +627,7 @@ Dispatch(P, m, st, st2, e) ==
     [] e.ev \in {"root_panic", "bu_panic"} -> OnPanic(P, m, st, e)
     [] e.ev = "bu_begin"         -> OnBuBegin(P, m, st, e)
     [] e.ev = "bu_sched"         -> OnBuSched(P, m, st, e)
+    [] e.ev = "bu_run"           -> OnBuRun(P, m, st, e)
     [] e.ev = "bu_ret"           -> OnBuRet(P, m, st, e)
     [] e.ev = "require_start"    -> OnRequireStart(P, m, st, e)
     [] e.ev = "require_end"      -> OnRequireEnd(P, m, st, e)
@@ -657,6 +670,7 @@ MonStep(P, m0, st, e) ==
                         !.lastT = IF e.ev \in {"exec_start", "task_exit", "task_enter", "exec_end"} THEN e.t ELSE @,
                         !.lastO = IF e.ev \in {"task_exit", "exec_end"} THEN e.o ELSE @,
                         !.chkFresh = IF e.ev \in {"chk_read_end", "chk_req_end"} THEN @ ELSE FALSE,
+                        !.builds = IF e.ev = "build_end" THEN @ + 1 ELSE @,
                         !.blog = IF e.ev \in RecordedKinds
                                  THEN Append(IF e.ev = "build_start" THEN <<>> ELSE @, [k |-> e.ev, x |-> Subj(e)]) ELSE @]
       allv == pre.v \cup nst.v \cup d.v
